@@ -183,6 +183,35 @@ def replay(ctx):
         w.close()
     return True
 
+def rebase_dry_stream(ctx, n):
+    """overlay rebase --dry-run over generated (baseline, overlay edit, new upstream) triples, dir and patch overlays incl.
+    files deleted upstream / in the overlay / added, conflicts: the overlay directory (baseline included) must be byte-identical
+    and the dry-run report must equal the report of the real run that follows (scenario machinery of props/c14.py;
+    only its dry-run predicates are judged here)"""
+    import concurrent.futures
+    from props import c14
+    rng = ctx.rng
+    specs = []
+    for i in range(n):
+        sp = c14.gen_spec(rng, i, kind=rng.choice(['dir', 'patch', 'patch']), quick=True)
+        for st in sp['steps']:
+            st['dry_first'] = True; st['noyes'] = False
+        specs.append(sp)
+    def job(sp):
+        try:
+            return c14.run_scenario(sp)
+        except InfraError as e:
+            return None
+    with concurrent.futures.ThreadPoolExecutor(max_workers=8) as ex:
+        results = list(ex.map(job, specs))
+    for sp, R in zip(specs, results):
+        if R is None:
+            ctx.count('rebase_dry', key=('infra', sp.get('name')), nontrivial=False, tags=['skipped']); continue
+        ctx.count('rebase_dry', key=(sp.get('kind'), len(sp['steps']), sp.get('name')), tags=['kind:%s' % sp.get('kind')])
+        for what, extra in R.viol:
+            if 'dry' in what.lower():
+                ctx.violation(what, {'stream': 'rebase_dry', 'spec': sp, 'detail': extra})
+
 def run(ctx):
     quick = ctx.tier == 'quick'
     ctx.rule = ('worlds: the fixed classes %s, failure worlds (overlay conflict / patch failure / baseline missing, read-only target), and worlds reached by '
@@ -243,3 +272,4 @@ def run(ctx):
             seen.add(t); uniq.append((t, c))
     for c in ctx.corr('quiet', HEADER, 'check_quiet', 'str * facts * str', uniq)[:6]:
         ctx.violation('model and implementation disagree: the model predicts an effect / a refusal / another command id for a read-only or dry-run invocation', c, no_input=True)
+    rebase_dry_stream(ctx, 24 if quick else 400)
